@@ -40,6 +40,35 @@ fn err_name(e: &MmapRegionError) -> &'static str {
 
 impl Exec for CtorExec {
     fn step(&mut self, line: &Value) -> Value {
+        if line["op"] == "race" {
+            // several threads create file-backed regions over ONE open file at the same time (a memfd backing several guest
+            // regions): every request lies inside the file, so every one must be accepted whatever the interleaving
+            self.n += 1;
+            let name = format!("/tmp/vmh-ctor-{}-{}", std::process::id(), self.n);
+            let f = std::fs::OpenOptions::new().read(true).write(true).create(true).truncate(true).open(&name).expect("harness: file");
+            f.set_len(4 * 4096).unwrap();
+            let _ = std::fs::remove_file(&name);
+            let f = std::sync::Arc::new(f);
+            let threads = us(line, "threads");
+            let rounds = us(line, "rounds");
+            let handles: Vec<_> = (0..threads)
+                .map(|t| {
+                    let f = f.clone();
+                    std::thread::spawn(move || {
+                        let mut refused = 0usize;
+                        for i in 0..rounds {
+                            let off = ((t + i) % 4) as u64 * 4096;
+                            if MmapRegion::<()>::from_file(FileOffset::from_arc(f.clone(), off), 4096).is_err() {
+                                refused += 1;
+                            }
+                        }
+                        refused
+                    })
+                })
+                .collect();
+            let refused: usize = handles.into_iter().map(|h| h.join().unwrap_or(usize::MAX / 8)).sum();
+            return json!({"op": "race", "a": line["a"], "r": {"k": "ok", "refused": refused}});
+        }
         if line["op"] == "wrap" {
             // a file-backed mapping given a guest range: GuestRegionMmap::new(mapping, base)
             self.n += 1;
@@ -57,7 +86,19 @@ impl Exec for CtorExec {
                     .build()
                     .expect("harness: build");
                 let mapped = mapped_bytes_of(&name);
-                match GuestRegionMmap::new(region, GuestAddress(gbase)) {
+                let res = match line["a"]["api"].as_str().unwrap_or("new") {
+                    // the convenience constructors create the mapping themselves
+                    "from_range_file" => {
+                        drop(region);
+                        GuestRegionMmap::<()>::from_range(GuestAddress(gbase), size, Some(FileOffset::new(f.try_clone().expect("harness: dup"), 0)))
+                    }
+                    "from_range_anon" => {
+                        drop(region);
+                        GuestRegionMmap::<()>::from_range(GuestAddress(gbase), size, None)
+                    }
+                    _ => GuestRegionMmap::new(region, GuestAddress(gbase)),
+                };
+                match res {
                     Ok(g) => json!({"k": "ok", "start": g.start_addr().0, "len": g.len(), "last": g.last_addr().0, "mapped": mapped}),
                     Err(_) => json!({"k": "err", "e": "InvalidGuestRegion"}),
                 }
